@@ -24,7 +24,7 @@ asan_total=0
 for p in C01 C02 C03 C04 C12 C13 C15 C16 C17 C18 C19 C20; do
     case $p in C01|C02|C03|C04|C20) n=$runs_net;; C13|C15|C16|C17) n=$runs_slow;; *) n=$runs_other;; esac
     log=/verif/replays/C19-asan-$p.log
-    ASAN_OPTIONS=detect_leaks=0:halt_on_error=1:abort_on_error=0 TW2SIM_REPLAY_DIR=/verif/replays/asan $ASAN_BIN $p quick --runs $n --no-evidence >$log 2>&1; r=$?
+    TW2SIM_HANG_SECS=1800 ASAN_OPTIONS=detect_leaks=0:halt_on_error=1:abort_on_error=0 TW2SIM_REPLAY_DIR=/verif/replays/asan $ASAN_BIN $p quick --runs $n --no-evidence >$log 2>&1; r=$?
     if grep -q "unknown property" $log; then continue; fi
     if grep -q "AddressSanitizer" $log; then
         grep -m3 -E "AddressSanitizer|^    #[0-3] " $log
